@@ -9,6 +9,7 @@ rm -rf $VC; git -C /verif worktree add -q --detach $VC HEAD
 cd $VC
 for d in /verif/seeded/*/; do
   name=$(basename $d)
+  if [ -n "${RECHECK_FILTER:-}" ] && ! echo "$name" | grep -Eq "$RECHECK_FILTER"; then continue; fi
   id=$(python3 -c "
 import json,re,sys
 m=json.load(open('$d/meta.json'))
